@@ -80,21 +80,18 @@ class BaseComponent(Manager):
     def __new__(cls, *args, **kwargs):
         self = super().__new__(cls)
 
-        handlers = {k: v for k, v in list(cls.__dict__.items()) if getattr(v, 'handler', False)}
-
-        def overridden(x):
-            return x in handlers and handlers[x].override
-
-        for base in cls.__bases__:
-            if issubclass(cls, base):
-                for k, v in list(base.__dict__.items()):
-                    p1 = isinstance(v, Callable)
-                    p2 = getattr(v, 'handler', False)
-                    p3 = overridden(k)
-                    if p1 and p2 and not p3:
-                        name = f'{base.__name__}_{k}'
+        # Handlers defined in any base class stay additional handlers unless
+        # a more derived class redefines them with ``override=True``.
+        overridden = set()
+        for klass in cls.__mro__:
+            for k, v in list(klass.__dict__.items()):
+                if isinstance(v, Callable) and getattr(v, 'handler', False):
+                    if klass is not cls and k not in overridden:
+                        name = f'{klass.__name__}_{k}'
                         method = MethodType(v, self)
                         setattr(self, name, method)
+                    if getattr(v, 'override', False):
+                        overridden.add(k)
 
         return self
 
